@@ -2,6 +2,7 @@ import Bng.Drv.Common
 import Bng.Model.PppoeServer
 import Bng.Model.PppoeMonitor
 import Bng.Model.PppoeTimed
+import Bng.Model.PppoePark
 /-
   bngdrv component `pppoesrv`: replays traces of the real pppoe.Server and runs the C04 monitor on the
   implementation's observations.
@@ -14,9 +15,14 @@ import Bng.Model.PppoeTimed
     ip m1 <sid> | sweep            (everything is idle)
     age <hours> | sweep <hours>    (virtual idle time: the sweep removes the sessions idle for MORE than <hours>)
          => sent=<frames|-> sess=<sid:mac:STATE:auth|unauth:ip|-,…|-> pool=<free>/<allocated>
+    authpark m1 <sid> good|bad|empty     a PAP request whose Access-Request the RADIUS server leaves unanswered
+         => parked <snapshot>            the handler waits inside the RADIUS call (`Bng.PppoePark`); until `authresume`
+                                          only `sweep` / `sweep <h>` / `age <h>` run, every other op => busy
+         => done <snapshot>              no RADIUS exchange (no client, empty password, frame not accepted): handled at once
+    authresume accept|reject             RADIUS answers the parked request  => <snapshot>  (not parked => notparked)
 -/
 namespace Bng.Drv.PppoeServerDrv
-open Bng Bng.Drv Bng.PppoeServer Bng.PppoeMon Bng.PppoeTimed
+open Bng Bng.Drv Bng.PppoeServer Bng.PppoeMon Bng.PppoeTimed Bng.PppoePark
 
 def showOut : Out → String
   | .pado m => s!"PADO>m{m}"
@@ -119,8 +125,48 @@ structure St where
   /-- the same clock kept by the MONITOR from the implementation's observations alone (owner of a session = the MAC
       its PADS went to): judges which sessions a timed sweep pass may and must remove -/
   midle : AMap Nat Nat := []
+  /-- the PAP request whose handler waits inside the RADIUS call (`Bng.PppoePark`) -/
+  parked : Option Parked := none
+
+def parsePIn (toks : List String) : Option PIn :=
+  match toks with
+  | ["authpark", m, sid, g] => do
+      let m ← parseTagged 'm' m; let sid ← sid.toNat?
+      let pw ← match g with
+        | "good" => some Pw.good | "bad" => some .bad | "empty" => some .empty | _ => none
+      pure (.authpark m sid pw)
+  | ["authresume", "accept"] => some (.authresume .accept)
+  | ["authresume", "reject"] => some (.authresume .reject)
+  | _ => none
+
+/-- `authpark` / `authresume`: the model is `PppoePark.stepP`, the monitor is told `PppoePark.projIn` -/
+def stepPark (st : St) (m : Srv) (pi : PIn) (impl : String) : St × LineResult :=
+  let p : PSrv := { t := { srv := m, idle := st.idle }, parked := st.parked }
+  let (p', outs, note) := stepP p pi
+  match note with
+  | .busy => (st, { modelObs := "busy" })
+  | .notparked => (st, { modelObs := "notparked" })
+  | _ =>
+    let shown := showSrv p'.t.srv outs
+    let pre := match note with | .parked => "parked " | .done => "done " | _ => ""
+    let (mon', vs) := match projIn p pi with
+      | some i => monitor st.mon i impl
+      | none => (st.mon, [])
+    let rt := if parseObs shown == obsOf p'.t.srv outs then [] else
+      [("obs-roundtrip", "none", s!"parseObs (showSrv ·) ≠ obsOf · on the model's own observation {shown}")]
+    -- the monitor's own clock: LastActivity is refreshed when the request ARRIVES (handleSession), not when RADIUS answers
+    let midle1 := match pi with
+      | .authpark m0 sid _ => if AMap.lookup st.mon.owner sid = some m0 then AMap.insert st.midle sid 0 else st.midle
+      | _ => st.midle
+    let midle' := midle1.filter fun q => mon'.prev.any (·.sid == q.1)
+    ({ st with model := some p'.t.srv, mon := mon', idle := p'.t.idle, midle := midle', parked := p'.parked },
+     { modelObs := pre ++ shown, viols := vs ++ rt })
 
 def step (st : St) (toks : List String) (impl : String) : St × LineResult :=
+  -- while a PAP request waits for RADIUS the receive goroutine takes no frame: only the sweep and the clock go on
+  if st.parked.isSome && !(toks.head? == some "sweep" || toks.head? == some "age" || toks.head? == some "authresume") then
+    (st, { modelObs := "busy" })
+  else
   match toks with
   | ["new", r, bits] =>
     match bits.toNat? with
@@ -166,6 +212,9 @@ def step (st : St) (toks : List String) (impl : String) : St × LineResult :=
         let (st', lr) := runOp st m (.sweep keep) impl
         (st', { lr with viols := lr.viols ++ vt })
       | none => (st, { modelObs := "badop" })
+    | _, _ =>
+    match st.model, parsePIn toks with
+    | some m, some pi => stepPark st m pi impl
     | _, _ =>
     match st.model, parseIn toks with
     | some m, some i => runOp st m i impl
